@@ -459,14 +459,11 @@ func errClass(err error) string {
 
 func init() {
 	register(&Check{ID: "C13",
-		Rule: "small-scope enumeration on the real codec: (a) round trip of every method in the linked protobuf registry (dev.ZorumsService, ordering.Gorums) x {request, response} x message values (zero, each scalar field set to small/extreme/non-ASCII values) x MessageID in {0,1,2^64-1} x Status in {absent, codes 0..16 x 3 texts, with one Any detail}; (b) decoding of every byte string of length <= 2 (quick) / <= 3 sharded (thorough) in both directions, and of every prefix, single-byte substitution {00,01,7f,80,ff} at every offset, perturbed length prefixes, swapped parts and every full name of the global registry (all descriptor kinds) plus unknown / malformed names in the method field of valid frames; (c) end to end: every status code x texts through a live stream, every sequence of 2..3 (thorough 4) calls on one stream over a 4-status alphabet {OK, NotFound a, PermissionDenied with empty text, NotFound b with one detail} - each caller sees exactly its own status - and 11 hostile frames injected into a live stream in both directions; an outcome is a distinct (decoder result class) or (message type, direction, size class)",
+		Rule: "small-scope enumeration on the real codec: (a) round trip of every method in the linked protobuf registry (dev.ZorumsService, ordering.Gorums) x {request, response} x message values (zero, each scalar field set to small/extreme/non-ASCII values) x MessageID in {0,1,2^64-1} x Status in {absent, codes 0..16 x 3 texts, with one Any detail}; (b) decoding of every byte string of length <= 3 (sharded) in both directions, and of every prefix, single-byte substitution {00,01,7f,80,ff} at every offset, perturbed length prefixes, swapped parts and every full name of the global registry (all descriptor kinds) plus unknown / malformed names in the method field of valid frames; (c) end to end: every status code x texts through a live stream, every sequence of 2..3 (thorough 4) calls on one stream over a 4-status alphabet {OK, NotFound a, PermissionDenied with empty text, NotFound b with one detail} - each caller sees exactly its own status - and 11 hostile frames injected into a live stream in both directions; an outcome is a distinct (decoder result class) or (message type, direction, size class)",
 		Gen: func(tier string) []Instance {
 			out := []Instance{{Name: "codec/roundtrip", Seq: c13RoundTrip}}
 			parts := 16
-			maxLen := 2
-			if thorough(tier) {
-				maxLen = 3
-			}
+			maxLen := 3 // 16.8 M strings per direction, a few seconds on 16 workers
 			for p := 0; p < parts; p++ {
 				out = append(out, Instance{Name: fmt.Sprintf("codec/decode/shard%d-of-%d/len<=%d", p, parts, maxLen), Seq: c13Decode(p, parts, maxLen)})
 			}
@@ -664,9 +661,6 @@ func c13E1(tier string) []Instance {
 	var out []Instance
 	for c := codes.Code(1); c <= 16; c++ {
 		for _, text := range []string{"x", "fél ✓", ""} {
-			if !thorough(tier) && text != "fél ✓" && c != codes.NotFound {
-				continue
-			}
 			out = append(out, Instance{Name: fmt.Sprintf("codec/status-e2e/code=%d/text=%q", c, text), Bound: 0, Root: c13Status(c, text)})
 		}
 	}
